@@ -164,6 +164,9 @@ func main() {
 						kept2 = append(kept2, tr.Kept...)
 						inl2 = append(inl2, tr.Inlined...)
 					}
+					if os.Getenv("NVET_DEBUG_INL") != "" {
+						fmt.Fprintf(os.Stderr, "round %d: %d files rewritten, %d inlined, kept: %v\n", round, len(more), len(inl2), kept2)
+					}
 					if len(more) == 0 || len(inl2) == 0 {
 						break
 					}
